@@ -172,13 +172,60 @@ def prove(assertions, timeout_ms=5000):
     return check_sat(assertions, timeout_ms, mbqi=True)
 
 
+def _symbols(f, cache={}):
+    """uninterpreted constants / functions occurring in f"""
+    key = f.get_id()
+    r = cache.get(key)
+    if r is not None and r[0].eq(f):
+        return r[1]
+    out, seen, stack = set(), set(), [f]
+    while stack:
+        x = stack.pop()
+        i = x.get_id()
+        if i in seen:
+            continue
+        seen.add(i)
+        if z3.is_quantifier(x):
+            stack.append(x.body())
+            continue
+        if z3.is_app(x):
+            d = x.decl()
+            if d.kind() == z3.Z3_OP_UNINTERPRETED:
+                out.add(d.name())
+            stack.extend(x.children())
+    cache[key] = (f, out)        # holding f keeps its id from being reused
+    return out
+
+
+def cone_of_influence(assertions, seed):
+    """the assertions connected to `seed` (an assertion) through shared uninterpreted symbols, transitively.
+    Returns (cone, rest). Signature-disjoint sets of satisfiable formulas over Int/Bool/arrays are jointly satisfiable,
+    so a model of the cone extends to all assertions iff `rest` is satisfiable."""
+    syms = set(_symbols(seed))
+    cone, rest = [seed], list(assertions)
+    changed = True
+    while changed:
+        changed = False
+        keep = []
+        for a in rest:
+            sa = _symbols(a)
+            if sa & syms:
+                cone.append(a)
+                syms |= sa
+                changed = True
+            else:
+                keep.append(a)
+        rest = keep
+    return cone, rest
+
+
 def _has_quant(f):
     key = f.get_id()
     r = _HQ.get(key)
-    if r is None:
-        r = _hq(f)
+    if r is None or not r[0].eq(f):
+        r = (f, _hq(f))
         _HQ[key] = r
-    return r
+    return r[1]
 
 
 _HQ = {}
